@@ -8,3 +8,4 @@ cd "$ROOT/harness"
 cargo build --offline -p vcheck -p sched -p sendsync --profile checked
 cargo build --offline -p drain
 cargo build --offline -p drain --release
+(cd /repo && cargo build --offline --release --example multi-thread --target-dir "$CARGO_TARGET_DIR/repo-example")
